@@ -340,8 +340,25 @@ fn write_json(path: &Path, v: &impl Serialize) {
     std::fs::rename(tmp, path).unwrap();
 }
 
+/// Memory-safety properties: a defect may make the code under test allocate without end. Cap the address space of the
+/// process that executes cases, so that such a case ends in a crash of this worker (reported with its replay file)
+/// instead of exhausting the machine.
+pub fn cap_address_space<P: Prop>() {
+    if P::signal_is_violation() {
+        let lim = libc::rlimit {
+            rlim_cur: 8 << 30,
+            rlim_max: 8 << 30,
+        };
+        // SAFETY: plain syscall on this process
+        unsafe {
+            libc::setrlimit(libc::RLIMIT_AS, &lim);
+        }
+    }
+}
+
 fn worker<P: Prop>(tier: Tier, seed: u64, shard: usize, shards: usize, cases: u32) -> i32 {
     install_quiet_panic_hook();
+    cap_address_space::<P>();
     let start = Instant::now();
     let known: BTreeSet<String> = known_findings(P::ID).into_iter().map(|k| k.signature).collect();
     let dir = replay_dir(P::ID);
@@ -767,6 +784,9 @@ fn replay<P: Prop>(path: &Path) -> i32 {
         }
     }
     install_quiet_panic_hook();
+    if std::env::var_os("VERIF_REPLAY_CHILD").is_some() {
+        cap_address_space::<P>();
+    }
     let text = match std::fs::read_to_string(path) {
         Ok(t) => t,
         Err(e) => {
